@@ -105,7 +105,8 @@ pub struct StableGraph<N, E, Ty = Directed, Ix = DefaultIx> {
 }
 //@ end
 
-impl<N, E, Ty: EdgeType, Ix: IndexType> StableGraph<N, E, Ty, Ix> {
+// (no `Ty: EdgeType` bound: the representation invariant does not depend on the edge type, and `Clone` is implemented without that bound)
+impl<N, E, Ty, Ix: IndexType> StableGraph<N, E, Ty, Ix> {
     pub open spec fn ns(&self) -> Seq<Node<Option<N>, Ix>> { self.g.nodes@ }
     pub open spec fn es(&self) -> Seq<Edge<Option<E>, Ix>> { self.g.edges@ }
     pub open spec fn wf_with(&self, out: Seq<Seq<int>>, inn: Seq<Seq<int>>, fl: Seq<int>, fe: Seq<int>, p: int) -> bool {
